@@ -40,7 +40,8 @@ pub fn skeleton(op: Op, cfg: &ClientCfg) -> (Scenario, usize) {
     sc.calls = calls;
     // a dangling pre-authorisation is reported during the clean-up of the call under test: one more exchange to hit
     if matches!(op, Op::Commit | Op::Cancel | Op::Configure) {
-        sc.plan.push(idx, Cmd::PendingQuery, ExPlan { pending_override: Some(Some(88)), ..ExPlan::default() });
+        // the terminal holds it until a reversal of it completes (it is reported again on every pending query)
+        sc.plan.dangling_from_call = Some((idx, 88));
     }
     // a few intermediate packets so that "between two reply packets" exists everywhere
     match op {
@@ -175,6 +176,10 @@ fn fault_kinds_for(point: &TxPoint) -> Vec<FaultKind> {
     let mut v = vec![FaultKind::Close, FaultKind::Garbage, FaultKind::Nack, FaultKind::Foreign, FaultKind::Silence];
     if point.cmd == Cmd::SystemInfo && point.reply_idx == 1 {
         v.push(FaultKind::WrongSerial);
+        v.push(FaultKind::EmptyCompletion);
+    }
+    if point.cmd == Cmd::Registration && point.reply_idx == 1 {
+        v.push(FaultKind::AbortReply);
     }
     v
 }
@@ -205,13 +210,8 @@ fn run_and_judge(r: &mut Report, id: &str, sc: &Scenario, idx: usize, schema: &A
             match &c.result {
                 CallResult::Hang => {
                     let stalled_where = tr.log.iter().filter(|e| e.call == c.index).last().map(|e| format!("{:?} on connection {}", e.dir, e.conn)).unwrap_or_default();
-                    // where the client was parked: handshake or exchange
-                    let in_handshake = {
-                        let k = tr.log.iter().filter(|e| e.call == c.index).last().map(|e| e.conn);
-                        k.map(|k| !tr.log.iter().any(|e| e.conn == k && e.dir == Dir::Vetted)).unwrap_or(true)
-                    };
                     r.violation(
-                        &format!("C10 {opname}: does not return ({})", if in_handshake { "terminal silent during connect/handshake" } else { "terminal silent inside an exchange" }),
+                        &format!("C10 {opname}: does not return within one virtual day"),
                         &format!("{label}: call {} had not returned after one virtual day; last terminal-side event: {stalled_where}", c.index),
                         case(),
                     );
@@ -236,7 +236,7 @@ pub fn run(ctx: &Ctx, id: &str) -> i32 {
     let quick = ctx.quick();
     report.exhaustive = Some(true);
     if id == "C09" {
-        report.rule = "every public operation {new, configure, read_card, begin, commit, cancel} is first run fault-free to number its terminal->client packets (handshake, acks, intermediate packets, clean-up exchanges included); then re-run with one fault at every position x kind {close, garbage, NACK, foreign control field, silence, wrong serial (system-info reply)} and with refused connection attempts; all pairs of faults for the shorter operations and sampled pairs/triples otherwise; each followed by a further operation. Also: a terminal reporting the serial in the other letter case, and 1 ms..1 s delays between and inside packets (non-faults: the operation must succeed without reconnecting). Oracle: connection checker R1-R4 (DESIGN D.4) over the per-connection event log. Non-trivial = every faulty run; single faults are a duplicate-free enumeration, multi-fault runs hashed.".into();
+        report.rule = "every public operation {new, configure, read_card, begin, commit, cancel} is first run fault-free to number its terminal->client packets (handshake, acks, intermediate packets, clean-up exchanges included); then re-run with one fault at every position x kind {close, garbage, NACK, foreign control field, silence, wrong serial / bare completion (system-info reply), a well-formed Abort where the reply set has none (registration reply)} and with refused connection attempts; all pairs of faults for the shorter operations and sampled pairs/triples otherwise; each followed by a further operation. Also: a terminal reporting the serial in the other letter case, and 1 ms..1 s delays between and inside packets (non-faults: the operation must succeed without reconnecting). Oracle: connection checker R1-R4 (DESIGN D.4) over the per-connection event log. Non-trivial = every faulty run; single faults are a duplicate-free enumeration, multi-fault runs hashed.".into();
         report.assumptions = vec!["after injecting a fault the simulated terminal is passive on that connection, so every byte recorded there afterwards was written by the client".into(), "silence during the handshake is bounded by the fix of finding D6 (otherwise those runs end at the watchdog and are attributed to C10)".into()];
     } else {
         report.rule = "every public operation x (a) a one-shot silence at every terminal->client packet position (fault-free numbering), (b) a persistent silence at every distinct (exchange kind, packet) point incl. the handshake, (c) a connect that never resolves / always never resolves / is always refused, (d) pairs: a one-shot silence followed by a second silence / close / garbage / connect stall on the retried attempt, and silence on a slow terminal; read_card_timeout 0..255 exhaustively with a terminal that stays silent for exactly its own read-card time-out and then answers 'abort 6C' 100 ms later (must be waited for: NoCardPresented); configuration extremes (password 0/999999, amount 0/10^12-1, transactions_max_num 0/usize::MAX, terminal id empty/non-numeric/8 digits, currency 0/9999). Time is tokio's paused clock. Oracle: every call returns before one virtual day and does not panic. Duplicate-free enumeration.".into();
@@ -284,14 +284,19 @@ pub fn run(ctx: &Ctx, id: &str) -> i32 {
                     // second fault on the retry: every kind at a few positions of the retried attempt
                     let np = points[op].len();
                     let second_positions: Vec<usize> = if quick { vec![*p + 1, *p + 3] } else { (*p + 1..=*p + np + 6).collect() };
-                    let kinds2: Vec<FaultKind> = if quick { vec![FaultKind::Close, FaultKind::Nack, FaultKind::WrongSerial, FaultKind::Silence] } else { vec![FaultKind::Close, FaultKind::Nack, FaultKind::WrongSerial, FaultKind::Silence, FaultKind::Garbage, FaultKind::Foreign] };
+                    let kinds2: Vec<FaultKind> = if quick { vec![FaultKind::Close, FaultKind::Nack, FaultKind::WrongSerial, FaultKind::Silence, FaultKind::AbortReply, FaultKind::EmptyCompletion] } else { vec![FaultKind::Close, FaultKind::Nack, FaultKind::WrongSerial, FaultKind::Silence, FaultKind::Garbage, FaultKind::Foreign, FaultKind::AbortReply, FaultKind::EmptyCompletion] };
                     for p2 in second_positions {
                         for kind2 in kinds2.clone() {
                             let (mut sc, idx) = skeleton(*op, &base_cfg);
                             sc.plan.faults.push(FaultSpec { call: idx, at: At::Tx(*p), kind });
                             // WrongSerial only makes sense at the system-info reply of the re-connection: use the point form
-                            let at2 = if kind2 == FaultKind::WrongSerial { At::Point(Cmd::SystemInfo, 1) } else { At::Tx(p2) };
-                            if kind2 == FaultKind::WrongSerial && p2 != *p + 1 {
+                            // faults that only make sense at one handshake packet of the re-connection use the point form (first time only)
+                            let at2 = match kind2 {
+                                FaultKind::WrongSerial | FaultKind::EmptyCompletion => At::PointOnce(Cmd::SystemInfo, 1),
+                                FaultKind::AbortReply => At::PointOnce(Cmd::Registration, 1),
+                                _ => At::Tx(p2),
+                            };
+                            if matches!(kind2, FaultKind::WrongSerial | FaultKind::EmptyCompletion | FaultKind::AbortReply) && p2 != *p + 1 {
                                 continue;
                             }
                             sc.plan.faults.push(FaultSpec { call: idx, at: at2, kind: kind2 });
